@@ -1,2 +1,366 @@
+// Concurrency driver for C12 (and the history part of C15): N threads call module-level entry points, table-based
+// kernels and the *_simple convenience functions on SHARED modules / tables with thread-private data.
+// Every call is bracketed by Enter/Exit events (through the library's own event buffer, so that they are totally
+// ordered with the cache-slot events emitted by the hooks); Exit carries a hash of the outputs.
+// The event buffer is dumped to a file; the decision is taken by SimpleCacheTrace.tla.
+//
+//   conc_drive <warm|cold> <nthreads> <iters> <seed> <outfile>
+#include <pthread.h>
+#include <stdint.h>
 #include <stdio.h>
-int main(void) { puts("conc_drive: placeholder"); return 0; }
+#include <stdlib.h>
+#include <string.h>
+
+#include "spqlios/commons_private.h"
+#include "spqlios/arithmetic/vec_znx_arithmetic.h"
+#include "spqlios/cplx/cplx_fft.h"
+#include "spqlios/q120/q120_arithmetic.h"
+#include "spqlios/q120/q120_ntt.h"
+#include "spqlios/reim/reim_fft.h"
+#include "spqlios/reim4/reim4_fftvec_public.h"
+
+enum { EV_MISS = 1, EV_USE = 2, EV_ENTER_MOD = 10, EV_EXIT_MOD = 11, EV_ENTER_SIMPLE = 12, EV_EXIT_SIMPLE = 13,
+       EV_WARMUP_DONE = 20, EV_REFERENCE = 21, EV_THREADS_DONE = 22 };
+
+#define NBIG 256
+#define NSMALL 4
+#define NNTT 64
+
+static MODULE *modBig, *modSmall, *modNtt;
+static REIM_FFT_PRECOMP* pReimFft;
+static REIM_IFFT_PRECOMP* pReimIfft;
+static CPLX_FFT_PRECOMP* pCplxFft;
+static CPLX_IFFT_PRECOMP* pCplxIfft;
+static REIM_FFTVEC_ADDMUL_PRECOMP* pAddmul;
+static REIM_FROM_ZNX64_PRECOMP* pFromZnx;
+static REIM_TO_ZNX64_PRECOMP* pToZnx;
+static q120_ntt_precomp *pNtt, *pIntt;
+static uint64_t gseed;
+
+static uint64_t splitmix(uint64_t* s) {
+  uint64_t z = (*s += 0x9E3779B97F4A7C15ull);
+  z = (z ^ (z >> 30)) * 0xBF58476D1CE4E5B9ull;
+  z = (z ^ (z >> 27)) * 0x94D049BB133111EBull;
+  return z ^ (z >> 31);
+}
+static uint64_t fnv(uint64_t h, const void* p, size_t n) {
+  const uint8_t* b = (const uint8_t*)p;
+  for (size_t i = 0; i < n; ++i) h = (h ^ b[i]) * 0x100000001B3ull;
+  return h;
+}
+static void fill_small(int64_t* v, size_t n, uint64_t* s, int bits) {
+  for (size_t i = 0; i < n; ++i) v[i] = (int64_t)(splitmix(s) >> (64 - bits)) - ((int64_t)1 << (bits - 1));
+}
+static void fill_dbl(double* v, size_t n, uint64_t* s) {
+  for (size_t i = 0; i < n; ++i) v[i] = (double)((int64_t)(splitmix(s) >> 44) - (1 << 19));
+}
+// every buffer starts from the same bytes, so that a hash never depends on memory the library did not write
+static void* al(size_t n) {
+  size_t sz = (n + 63) & ~(size_t)63;
+  void* p = aligned_alloc(64, sz ? sz : 64);
+  memset(p, 0x5A, sz ? sz : 64);
+  return p;
+}
+
+#define NOPS 22
+static const int op_class[NOPS] = {0, 0, 0, 0, 0, 0, 0, 0, 0, 0, 0, 0, 0, 0, 1, 1, 1, 1, 1, 1, 1, 1};  // 0: module/table, 1: simple
+
+// runs operation `op` on private data derived from (gseed, op) only; returns the hash of everything it produced
+static uint64_t run_op(int op) {
+  uint64_t s = gseed * 1000003ull + (uint64_t)op;
+  uint64_t h = 0xCBF29CE484222325ull;
+  switch (op) {
+    case 0: {  // vec_znx_add / sub / negate / copy, 3 limbs
+      const uint64_t n = NBIG, sl = NBIG + 8;
+      int64_t *a = al(8 * 3 * sl), *b = al(8 * 3 * sl), *r = al(8 * 3 * sl);
+      fill_small(a, 3 * sl, &s, 50); fill_small(b, 3 * sl, &s, 50); memset(r, 0, 8 * 3 * sl);
+      vec_znx_add(modBig, r, 3, sl, a, 3, sl, b, 2, sl); h = fnv(h, r, 8 * 3 * sl);
+      vec_znx_sub(modBig, r, 3, sl, a, 2, sl, b, 3, sl); h = fnv(h, r, 8 * 3 * sl);
+      vec_znx_negate(modBig, r, 2, sl, a, 3, sl); h = fnv(h, r, 8 * 3 * sl);
+      vec_znx_copy(modBig, r, 3, sl, b, 1, sl); h = fnv(h, r, 8 * 3 * sl);
+      (void)n; free(a); free(b); free(r);
+      break;
+    }
+    case 1: {  // normalisation
+      const uint64_t n = NBIG;
+      int64_t *a = al(8 * 4 * n), *r = al(8 * 4 * n);
+      uint8_t* tmp = al(vec_znx_normalize_base2k_tmp_bytes(modBig));
+      fill_small(a, 4 * n, &s, 60); memset(r, 0, 8 * 4 * n);
+      vec_znx_normalize_base2k(modBig, 19, r, 3, n, a, 4, n, tmp); h = fnv(h, r, 8 * 4 * n);
+      free(a); free(r); free(tmp);
+      break;
+    }
+    case 2: {  // dft + idft
+      const uint64_t n = NBIG;
+      int64_t* a = al(8 * 2 * n);
+      VEC_ZNX_DFT* d = al(bytes_of_vec_znx_dft(modBig, 2));
+      VEC_ZNX_BIG* g = al(bytes_of_vec_znx_big(modBig, 2));
+      fill_small(a, 2 * n, &s, 30);
+      vec_znx_dft(modBig, d, 2, a, 2, n);
+      vec_znx_idft(modBig, g, 2, d, 2, 0); h = fnv(h, g, 8 * 2 * n);
+      free(a); free(d); free(g);
+      break;
+    }
+    case 3: {  // svp
+      const uint64_t n = NBIG;
+      int64_t *a = al(8 * 2 * n), *p = al(8 * n);
+      SVP_PPOL* pp = al(bytes_of_svp_ppol(modBig));
+      VEC_ZNX_DFT* d = al(bytes_of_vec_znx_dft(modBig, 2));
+      VEC_ZNX_BIG* g = al(bytes_of_vec_znx_big(modBig, 2));
+      fill_small(a, 2 * n, &s, 12); fill_small(p, n, &s, 12);
+      svp_prepare(modBig, pp, p);
+      svp_apply_dft(modBig, d, 2, pp, a, 2, n);
+      vec_znx_idft_tmp_a(modBig, g, 2, d, 2); h = fnv(h, g, 8 * 2 * n);
+      free(a); free(p); free(pp); free(d); free(g);
+      break;
+    }
+    case 4: {  // small product (big and small module)
+      for (int k = 0; k < 2; ++k) {
+        MODULE* m = k ? modSmall : modBig;
+        const uint64_t n = k ? NSMALL : NBIG;
+        int64_t *a = al(8 * n), *b = al(8 * n), *r = al(8 * n);
+        uint8_t* tmp = al(znx_small_single_product_tmp_bytes(m));
+        fill_small(a, n, &s, 14); fill_small(b, n, &s, 14);
+        znx_small_single_product(m, r, a, b, tmp); h = fnv(h, r, 8 * n);
+        free(a); free(b); free(r); free(tmp);
+      }
+      break;
+    }
+    case 5: {  // vmp on the small-layout and block-layout modules
+      for (int k = 0; k < 2; ++k) {
+        MODULE* m = k ? modSmall : modBig;
+        const uint64_t n = k ? NSMALL : NBIG, nr = 3, nc = 3;
+        int64_t *mat = al(8 * n * nr * nc), *a = al(8 * n * nr);
+        VMP_PMAT* pm = al(bytes_of_vmp_pmat(m, nr, nc));
+        VEC_ZNX_DFT* d = al(bytes_of_vec_znx_dft(m, nc));
+        VEC_ZNX_BIG* g = al(bytes_of_vec_znx_big(m, nc));
+        uint8_t* t1 = al(vmp_prepare_contiguous_tmp_bytes(m, nr, nc));
+        uint8_t* t2 = al(vmp_apply_dft_tmp_bytes(m, nc, nr, nr, nc));
+        fill_small(mat, n * nr * nc, &s, 10); fill_small(a, n * nr, &s, 10);
+        vmp_prepare_contiguous(m, pm, mat, nr, nc, t1);
+        vmp_apply_dft(m, d, nc, a, nr, n, pm, nr, nc, t2);
+        vec_znx_idft(m, g, nc, d, nc, 0); h = fnv(h, g, 8 * n * nc);
+        free(mat); free(a); free(pm); free(d); free(g); free(t1); free(t2);
+      }
+      break;
+    }
+    case 6: {  // rotation / automorphism, in place and out of place
+      const uint64_t n = NBIG;
+      int64_t *a = al(8 * 2 * n), *r = al(8 * 2 * n);
+      fill_small(a, 2 * n, &s, 60);
+      vec_znx_rotate(modBig, 77, r, 2, n, a, 2, n); h = fnv(h, r, 8 * 2 * n);
+      vec_znx_automorphism(modBig, 5, r, 2, n, r, 2, n); h = fnv(h, r, 8 * 2 * n);
+      free(a); free(r);
+      break;
+    }
+    case 7: {  // NTT120 module
+      const uint64_t n = NNTT;
+      int64_t* a = al(8 * 2 * n);
+      VEC_ZNX_DFT* d = al(32 * n * 2);
+      VEC_ZNX_BIG* g = al(16 * n * 2);
+      uint8_t* tmp = al(vec_znx_idft_tmp_bytes(modNtt));
+      fill_small(a, 2 * n, &s, 62);
+      vec_znx_dft(modNtt, d, 2, a, 2, n);
+      vec_znx_idft(modNtt, g, 2, d, 2, tmp); h = fnv(h, g, 16 * n * 2);
+      free(a); free(d); free(g); free(tmp);
+      break;
+    }
+    case 8: {  // big arithmetic + big normalisation
+      const uint64_t n = NBIG;
+      int64_t *a = al(8 * 2 * n), *b = al(8 * 2 * n), *r = al(8 * 2 * n), *o = al(8 * 2 * n);
+      uint8_t* tmp = al(vec_znx_big_normalize_base2k_tmp_bytes(modBig));
+      fill_small(a, 2 * n, &s, 55); fill_small(b, 2 * n, &s, 55);
+      vec_znx_big_add(modBig, (VEC_ZNX_BIG*)r, 2, (VEC_ZNX_BIG*)a, 2, (VEC_ZNX_BIG*)b, 2);
+      vec_znx_big_sub_small_b(modBig, (VEC_ZNX_BIG*)r, 2, (VEC_ZNX_BIG*)r, 2, b, 1, n);
+      vec_znx_big_normalize_base2k(modBig, 17, o, 2, n, (VEC_ZNX_BIG*)r, 2, tmp); h = fnv(h, o, 8 * 2 * n);
+      free(a); free(b); free(r); free(o); free(tmp);
+      break;
+    }
+    case 9: {  // reim fft / ifft on a shared table
+      const uint64_t m = 32;
+      double* v = al(16 * m);
+      fill_dbl(v, 2 * m, &s);
+      reim_fft(pReimFft, v); h = fnv(h, v, 16 * m);
+      reim_ifft(pReimIfft, v); h = fnv(h, v, 16 * m);
+      free(v);
+      break;
+    }
+    case 10: {  // cplx fft / ifft on a shared table
+      const uint64_t m = 32;
+      double* v = al(16 * m);
+      fill_dbl(v, 2 * m, &s);
+      cplx_fft(pCplxFft, v); h = fnv(h, v, 16 * m);
+      cplx_ifft(pCplxIfft, v); h = fnv(h, v, 16 * m);
+      free(v);
+      break;
+    }
+    case 11: {  // pointwise product on a shared table
+      const uint64_t m = 32;
+      double *a = al(16 * m), *b = al(16 * m), *r = al(16 * m);
+      fill_dbl(a, 2 * m, &s); fill_dbl(b, 2 * m, &s); fill_dbl(r, 2 * m, &s);
+      reim_fftvec_addmul(pAddmul, r, a, b); h = fnv(h, r, 16 * m);
+      free(a); free(b); free(r);
+      break;
+    }
+    case 12: {  // q120 NTT on shared tables
+      const uint64_t n = NNTT;
+      uint64_t* v = al(32 * n);
+      for (uint64_t i = 0; i < 4 * n; ++i) v[i] = splitmix(&s);
+      q120_ntt_bb_avx2(pNtt, (q120b*)v); h = fnv(h, v, 32 * n);
+      q120_intt_bb_avx2(pIntt, (q120b*)v); h = fnv(h, v, 32 * n);
+      free(v);
+      break;
+    }
+    case 13: {  // conversions on shared tables
+      const uint64_t m = 32;
+      int64_t *x = al(16 * m), *y = al(16 * m);
+      double* v = al(16 * m);
+      fill_small(x, 2 * m, &s, 40);
+      reim_from_znx64(pFromZnx, v, x);
+      reim_to_znx64(pToZnx, y, v); h = fnv(h, y, 16 * m);
+      free(x); free(y); free(v);
+      break;
+    }
+    case 14: {  // simple: reim fft / ifft
+      const uint64_t m = 8;
+      double* v = al(16 * m);
+      fill_dbl(v, 2 * m, &s);
+      reim_fft_simple(m, v); h = fnv(h, v, 16 * m);
+      reim_ifft_simple(m, v); h = fnv(h, v, 16 * m);
+      free(v);
+      break;
+    }
+    case 15: {  // simple: cplx fftvec
+      const uint64_t m = 16;
+      double *a = al(16 * m), *b = al(16 * m), *r = al(16 * m);
+      fill_dbl(a, 2 * m, &s); fill_dbl(b, 2 * m, &s); fill_dbl(r, 2 * m, &s);
+      cplx_fftvec_mul_simple(m, r, a, b); h = fnv(h, r, 16 * m);
+      cplx_fftvec_addmul_simple(m, r, a, b); h = fnv(h, r, 16 * m);
+      free(a); free(b); free(r);
+      break;
+    }
+    case 16:
+    case 17: {  // simple, thread-local table keyed by (m, divisor, bound): two parameter sets
+      const uint64_t m = (op == 16) ? 8 : 16;
+      const double div = (op == 16) ? 4. : 16.;
+      int64_t* y = al(16 * m);
+      double* v = al(16 * m);
+      fill_dbl(v, 2 * m, &s);
+      reim_to_znx64_simple(m, div, (op == 16) ? 40 : 60, y, v); h = fnv(h, y, 16 * m);
+      free(y); free(v);
+      break;
+    }
+    case 18:
+    case 19: {  // simple, thread-local table of cplx_to_tnx32 keyed by (m, divisor, log2overhead)
+      const uint64_t m = 16;
+      const double div = (op == 18) ? 16. : 1024.;
+      int32_t* y = al(8 * m);
+      double* v = al(16 * m);
+      fill_dbl(v, 2 * m, &s);
+      cplx_to_tnx32_simple(m, div * 1048576., (op == 18) ? 10 : 16, y, v); h = fnv(h, y, 8 * m);
+      free(y); free(v);
+      break;
+    }
+    case 20: {  // simple: reim4 layout conversions and products
+      const uint64_t m = 16;
+      double *a = al(16 * m), *b = al(16 * m), *r = al(16 * m);
+      fill_dbl(a, 2 * m, &s); fill_dbl(b, 2 * m, &s);
+      reim4_from_cplx_simple(m, r, a); h = fnv(h, r, 16 * m);
+      reim4_to_cplx_simple(m, b, r); h = fnv(h, b, 16 * m);
+      reim4_fftvec_mul_simple(m, r, a, b); h = fnv(h, r, 16 * m);
+      reim4_fftvec_addmul_simple(m, r, a, b); h = fnv(h, r, 16 * m);
+      free(a); free(b); free(r);
+      break;
+    }
+    case 21: {  // simple: conversions keyed by dimension, and the pointwise reim products
+      const uint64_t m = 16;
+      int64_t* x = al(16 * m);
+      int32_t* x32 = al(8 * m);
+      double *v = al(16 * m), *w = al(16 * m), *r = al(16 * m);
+      fill_small(x, 2 * m, &s, 40);
+      for (uint64_t i = 0; i < 2 * m; ++i) x32[i] = (int32_t)splitmix(&s);
+      reim_from_znx64_simple(m, 50, v, x); h = fnv(h, v, 16 * m);
+      cplx_from_znx32_simple(m, w, x32); h = fnv(h, w, 16 * m);
+      cplx_from_tnx32_simple(m, w, x32); h = fnv(h, w, 16 * m);
+      fill_dbl(v, 2 * m, &s); fill_dbl(w, 2 * m, &s); fill_dbl(r, 2 * m, &s);
+      reim_fftvec_mul_simple(m, r, v, w); h = fnv(h, r, 16 * m);
+      reim_fftvec_addmul_simple(m, r, v, w); h = fnv(h, r, 16 * m);
+      free(x); free(x32); free(v); free(w); free(r);
+      break;
+    }
+    default:
+      break;
+  }
+  return h;
+}
+
+// parameters of the calls whose thread-local table is keyed by (m, divisor, bound/overhead): reported in Enter
+static void op_params(int op, int64_t* m, double* div, int64_t* bnd) {
+  *m = 0; *div = 0; *bnd = 0;
+  if (op == 16) { *m = 8; *div = 4.; *bnd = 40; }
+  if (op == 17) { *m = 16; *div = 16.; *bnd = 60; }
+  if (op == 18) { *m = 16; *div = 16. * 1048576.; *bnd = 10; }
+  if (op == 19) { *m = 16; *div = 1024. * 1048576.; *bnd = 16; }
+}
+
+static void traced_op(int op) {
+  int64_t pm, pb;
+  double pd;
+  op_params(op, &pm, &pd, &pb);
+  spqlios_verif_event(op_class[op] ? EV_ENTER_SIMPLE : EV_ENTER_MOD, op, pm, *(int64_t*)&pd, pb, 0);
+  uint64_t h = run_op(op);
+  spqlios_verif_event(op_class[op] ? EV_EXIT_SIMPLE : EV_EXIT_MOD, op, (int64_t)(h & 0x7FFFFFFF), (int64_t)((h >> 31) & 0x7FFFFFFF), 0,
+                      0);
+}
+
+static int g_iters;
+static void* worker(void* arg) {
+  int64_t tid = (int64_t)(intptr_t)arg;
+  spqlios_verif_set_tid(tid);
+  uint64_t s = gseed * 7919ull + (uint64_t)tid;
+  for (int it = 0; it < g_iters; ++it) traced_op((int)(splitmix(&s) % NOPS));
+  return 0;
+}
+
+int main(int argc, char** argv) {
+  if (argc < 6) {
+    fprintf(stderr, "usage: %s warm|cold nthreads iters seed outfile\n", argv[0]);
+    return 2;
+  }
+  const int warm = !strcmp(argv[1], "warm");
+  const int nthreads = atoi(argv[2]);
+  g_iters = atoi(argv[3]);
+  gseed = strtoull(argv[4], 0, 10);
+  spqlios_verif_events_enable((uint64_t)(nthreads + 2) * (uint64_t)(g_iters + NOPS + 4) * 24);
+  spqlios_verif_set_tid(0);
+  modBig = new_module_info(NBIG, FFT64);
+  modSmall = new_module_info(NSMALL, FFT64);
+  modNtt = new_module_info(NNTT, NTT120);
+  pReimFft = new_reim_fft_precomp(32, 0);
+  pReimIfft = new_reim_ifft_precomp(32, 0);
+  pCplxFft = new_cplx_fft_precomp(32, 0);
+  pCplxIfft = new_cplx_ifft_precomp(32, 0);
+  pAddmul = new_reim_fftvec_addmul_precomp(32);
+  pFromZnx = new_reim_from_znx64_precomp(32, 50);
+  pToZnx = new_reim_to_znx64_precomp(32, 1., 60);
+  pNtt = q120_new_ntt_bb_precomp(NNTT);
+  pIntt = q120_new_intt_bb_precomp(NNTT);
+  if (warm) {  // the documented protocol: one call per dimension has completed before the threads start
+    for (int op = 0; op < NOPS; ++op) traced_op(op);
+    spqlios_verif_event(EV_WARMUP_DONE, 0, 0, 0, 0, 0);
+  }
+  pthread_t* th = malloc(sizeof(pthread_t) * (size_t)nthreads);
+  for (int i = 0; i < nthreads; ++i) pthread_create(&th[i], 0, worker, (void*)(intptr_t)(i + 1));
+  for (int i = 0; i < nthreads; ++i) pthread_join(th[i], 0);
+  spqlios_verif_event(EV_THREADS_DONE, 0, 0, 0, 0, 0);
+  if (!warm) {  // reference values: the same calls, alone, after the concurrent phase
+    spqlios_verif_event(EV_REFERENCE, 0, 0, 0, 0, 0);
+    for (int op = 0; op < NOPS; ++op) traced_op(op);
+  }
+  FILE* f = fopen(argv[5], "wb");
+  if (!f) return 2;
+  uint64_t n = spqlios_verif_events_count();
+  fwrite(spqlios_verif_events_data(), 64, n, f);
+  fclose(f);
+  return 0;
+}
